@@ -339,7 +339,7 @@ func (w *world) siblingOpts(t *rapid.T, sib ethsim.ChildOpts) (ethsim.ChildOpts,
 }
 
 func (w *world) genTree(t *rapid.T, r *rec.Recorder) {
-	w.baseH = rapid.SampledFrom([]uint64{1, 46, 255, 4095, 12_965_000, 1 << 40}).Draw(t, "creationHeight")
+	w.baseH = rapid.SampledFrom([]uint64{1, 46, 255, 4095, 9_699_995, 12_965_000, 13_286_181}).Draw(t, "creationHeight")
 	gasLimit := rapid.SampledFrom([]uint64{5000, 5003, 6000, 1_000_000, 30_000_000, 1 << 62, 0x7fffffffffffffff}).Draw(t, "gasLimit0")
 	baseFee := rapid.SampledFrom([]uint64{0, 1, 7, 8, 1_000_000_000, 1_000_000_000_000}).Draw(t, "baseFee0")
 	for i := 0; i < 3; i++ {
